@@ -32,12 +32,12 @@ pub fn mk_coin(version_id: u8, aux: Option<u32>) -> CoinType {
 
 fn put_rec(i: usize, height: u8, file: u8, pos: u8) {
     unsafe {
-        ldb::KEYS[i][0] = b'b';
-        ldb::KEYS[i][1] = i as u8 + 1;
-        ldb::KEYLEN[i] = 33;
-        let v = &mut ldb::VALS[i];
+        ldb::KEYS.v[i][0] = b'b';
+        ldb::KEYS.v[i][1] = i as u8 + 1;
+        ldb::KEYLEN.v[i] = 33;
+        let v = &mut ldb::VALS.v[i];
         v[0] = 1; v[1] = height; v[2] = 29; v[3] = 1; v[4] = file; v[5] = pos;
-        ldb::VLEN[i] = 6;
+        ldb::VLEN.v[i] = 6;
     }
 }
 
@@ -55,7 +55,7 @@ macro_rules! index_new {
                 put_rec(i, i as u8, file[i], pos[i]);
                 i += 1;
             }
-            unsafe { ldb::N_REC = T + 1; }
+            unsafe { ldb::N_REC.v = T + 1; }
             let start: u64 = kani::any();
             let has_end: bool = kani::any();
             let e: u64 = kani::any();
